@@ -84,6 +84,8 @@ class Spec(PureLibMixin, BaseSpec):
             return vstr(ModOf(o))
         if name == "__qualname__":
             return vstr(QualOf(o))
+        if name == "__name__":
+            return vstr(z3.Function("NameOf", I_, S_)(o))      # not tied to the qualified name: factories rename __name__ afterwards
         if name == "get_metadata":
             if v.eq(self.CLS) and I.st.choose(2, "has get_metadata?") == 1:
                 I.st.ghost["no_category"] = True
